@@ -17,7 +17,7 @@ Definition aft (st : tstate) : Prop := (t_pend st = PdNone /\ In (t_type st) [So
 (* where a bond spelling may start: after an atom / ")" or after "(" *)
 Definition bondpre (st : tstate) : Prop := aft st \/ (t_pend st = PdNone /\ t_type st = Some 2).
 (* where an atom may start *)
-Definition bef (st : tstate) : Prop := bondpre st \/ (t_pend st = PdNone /\ In (t_type st) [None; Some 1]).
+Definition bef (st : tstate) : Prop := bondpre st \/ (t_pend st = PdNone /\ In (t_type st) [None; Some 1; Some 4]).
 
 Ltac st_cases H :=
   unfold bef, bondpre, aft, pendCB in H; cbn [In] in H;
